@@ -15,6 +15,11 @@ int  __verif_select(int n, int* clauses);
 void __verif_abort(int kind);                     /* 1 assert_fail, 2 terminate/abort, 3 trap, 4 pure virtual */
 void __verif_unreachable(void);
 void __verif_divcheck(int ok);
+#ifdef __CPROVER__
+static inline uint64_t __verif_ptrdiff(uint8_t* a, uint8_t* b) { return __CPROVER_same_object(a, b) ? (uint64_t)(__CPROVER_POINTER_OFFSET(a) - __CPROVER_POINTER_OFFSET(b)) : (uint64_t)a - (uint64_t)b; }
+#else
+static inline uint64_t __verif_ptrdiff(uint8_t* a, uint8_t* b) { return (uint64_t)a - (uint64_t)b; }
+#endif
 
 /* --- memory intrinsics: bounded byte loops (trip count covered by --unwinding-assertions) --- */
 void __verif_memcpy(u8* d, const u8* s, u64 n);
